@@ -6,11 +6,14 @@ package main
 
 import (
 	"bufio"
+	"context"
 	"encoding/json"
 	"fmt"
 	"os"
+	"runtime"
 	"strconv"
 	"strings"
+	"syscall"
 
 	"github.com/ajitpratap0/GoSQLX/pkg/formatter"
 	"github.com/ajitpratap0/GoSQLX/pkg/gosqlx"
@@ -60,6 +63,46 @@ func costFamily(name string, k int) string {
 		return "SELECT f(" + rep("a,\n", k) + "b) FROM t"
 	case "whitespace":
 		return "SELECT a" + rep("   \t ", k) + "FROM t"
+	case "string_literals":
+		return "SELECT " + rep("'it''s a str', ", k) + "'e' FROM t"
+	case "quoted_idents":
+		return "SELECT " + rep("\"Col Name\", ", k) + "\"e\" FROM t"
+	case "backtick_idents":
+		return "SELECT " + rep("`col`, ", k) + "`e` FROM t"
+	case "numbers":
+		return "SELECT " + rep("12345.678e10, ", k) + "1 FROM t"
+	case "placeholders":
+		return "SELECT a FROM t WHERE " + rep("a = $1 AND b = $2 AND\n", k) + "c = $3"
+	case "dollar_quoted":
+		return "SELECT " + rep("$$body$$, $t$x$t$, ", k) + "1 FROM t"
+	case "dollar_tags_unclosed":
+		var sb strings.Builder
+		sb.WriteString("SELECT ")
+		for i := 0; i < k; i++ {
+			sb.WriteString("$p")
+			sb.WriteString(strconv.Itoa(i))
+			sb.WriteString("$, ")
+		}
+		sb.WriteString("1 FROM t")
+		return sb.String()
+	case "casts":
+		return "SELECT a" + rep("::int::text", k) + " FROM t"
+	case "json_ops":
+		return "SELECT a" + rep("->'k'->>'j'", k) + " FROM t"
+	case "subscripts":
+		return "SELECT a" + rep("[1]", k) + " FROM t"
+	case "semicolons":
+		return "SELECT 1" + rep(";", k)
+	case "dots":
+		return "SELECT " + rep("t.c, t.d, ", k) + "t.x FROM t"
+	case "or_like":
+		return "SELECT a FROM t WHERE " + rep("a LIKE 'x%' OR b NOT IN (1, 2) OR\n", k) + "c IS NOT NULL"
+	case "order_by_list":
+		return "SELECT a FROM t ORDER BY " + rep("a DESC NULLS LAST,\n", k) + "b"
+	case "crlf_lines":
+		return "SELECT\r\n" + rep("  a,\r\n", k) + "  b\r\nFROM t"
+	case "unicode_idents":
+		return "SELECT " + rep("caf\u00e9, \u540d\u524d, ", k) + "x FROM t"
 	}
 	return ""
 }
@@ -77,6 +120,11 @@ func init() {
 		}
 		status := "ok"
 		note := ""
+		var m0, m1 runtime.MemStats
+		var r0, r1 syscall.Rusage
+		runtime.GC()
+		runtime.ReadMemStats(&m0)
+		syscall.Getrusage(syscall.RUSAGE_SELF, &r0)
 		switch args[0] {
 		case "tokenize":
 			tk, _ := tokenizer.New()
@@ -85,6 +133,30 @@ func init() {
 				status = "error:" + infoOf(err).Code
 			}
 			note = strconv.Itoa(len(toks))
+		case "tokenize_ctx":
+			tk, _ := tokenizer.New()
+			toks, err := tk.TokenizeContext(context.Background(), []byte(sql))
+			if err != nil {
+				status = "error:" + infoOf(err).Code
+			}
+			note = strconv.Itoa(len(toks))
+		case "parse_ctx":
+			a, err := gosqlx.ParseWithContext(context.Background(), sql)
+			if err != nil {
+				status = "error:" + infoOf(err).Code
+			} else {
+				note = strconv.Itoa(len(a.Statements))
+			}
+		case "recovery":
+			st, errs := gosqlx.ParseWithRecovery(sql)
+			note = strconv.Itoa(len(st)) + "/" + strconv.Itoa(len(errs))
+		case "validate":
+			if err := gosqlx.Validate(sql); err != nil {
+				status = "error:" + infoOf(err).Code
+			}
+		case "lint":
+			r := allLinter().LintString(sql, "q.sql")
+			note = strconv.Itoa(len(r.Violations))
 		case "parse":
 			a, err := gosqlx.Parse(sql)
 			if err != nil {
@@ -132,7 +204,11 @@ func init() {
 		default:
 			return 2
 		}
-		emitJSON(map[string]interface{}{"entry": args[0], "family": args[1], "k": k, "bytes": len(sql), "status": status, "note": note})
+		syscall.Getrusage(syscall.RUSAGE_SELF, &r1)
+		runtime.ReadMemStats(&m1)
+		cpu := (r1.Utime.Sec-r0.Utime.Sec)*1000000 + (r1.Utime.Usec - r0.Utime.Usec) + (r1.Stime.Sec-r0.Stime.Sec)*1000000 + (r1.Stime.Usec - r0.Stime.Usec)
+		emitJSON(map[string]interface{}{"entry": args[0], "family": args[1], "k": k, "bytes": len(sql), "status": status, "note": note,
+			"alloc_bytes": m1.TotalAlloc - m0.TotalAlloc, "mallocs": m1.Mallocs - m0.Mallocs, "cpu_us": cpu})
 		return 0
 	}
 }
